@@ -726,3 +726,58 @@ def rule_F2h(ctx):
                   and norm(b.targets[0].value) == norm(lp.target) and norm(b.value) == qparam for b in lp.body)
     ctx.check(body_ok, "F2h", f"{s.qname}:assign", func=s, node=lp, construct="quarter-propagation:assign",
               msg=f"each point of the slice must receive .quarter = {qparam}")
+
+
+# --------------------------------------------------------------------- F2i: comparison mixin, subclass walk, clean-up
+
+def rule_F2i(ctx):
+    ctx.rule("F2i", "the order searchsorted relies on: every rich comparison of ComparableMixin applies its own operator to "
+                    "self._cmpkey()/other._cmpkey() (checked on all order types of two keys); iter_subclasses yields every direct "
+                    "subclass once and recurses into it; _cleanup_point removes a point only when both registries are empty")
+    from .extra import weak_orderings, eval_cmp
+    prog = ctx.prog
+    cm = prog.cls("partitura.utils.generic:ComparableMixin", "F2i")
+    want = {"__lt__": lambda a, b: a < b, "__le__": lambda a, b: a <= b, "__eq__": lambda a, b: a == b,
+            "__ge__": lambda a, b: a >= b, "__gt__": lambda a, b: a > b, "__ne__": lambda a, b: a != b}
+    cmp_ = cm.methods.get("_compare")
+    ctx.require(cmp_ is not None, "F2i", cm.qname, "_compare not found")
+    ctx.touch(cmp_)
+    calls = [n for n in own_nodes(cmp_.node) if isinstance(n, ast.Call) and isinstance(n.func, ast.Name) and n.func.id == cmp_.params[2]]
+    ok = len(calls) == 1 and [norm(a) for a in calls[0].args] == [f"{cmp_.params[0]}._cmpkey()", f"{cmp_.params[1]}._cmpkey()"]
+    ctx.check(ok, "F2i", "_compare(self, other, op) = op(self key, other key)", func=cmp_, construct="compare-argument-order",
+              msg="_compare must apply the operator to (self._cmpkey(), other._cmpkey()) in this order")
+    for name, spec in want.items():
+        m = cm.methods.get(name)
+        ctx.require(m is not None, "F2i", f"{cm.qname}.{name}", "missing")
+        ctx.touch(m)
+        lam = [n for n in own_nodes(m.node) if isinstance(n, ast.Lambda)]
+        ok = len(lam) == 1 and len(lam[0].args.args) == 2
+        bad = None
+        if ok:
+            a, b = (x.arg for x in lam[0].args.args)
+            for env in weak_orderings([a, b]):
+                got = eval_cmp(lam[0].body, env)
+                if got is None or got != spec(env[a], env[b]):
+                    ok, bad = False, env
+        ctx.check(ok, "F2i", f"ComparableMixin.{name}", func=m, construct=f"comparison-operator:{name}",
+                  msg=f"{name} does not implement its own operator on the comparison keys (counter-example ordering {bad}): binary search "
+                      f"over the time points (np.searchsorted) would find wrong positions")
+    isub = prog.func("partitura.utils.generic:iter_subclasses", "F2i")
+    ctx.touch(isub)
+    src_calls = {norm(n.func) for n in own_nodes(isub.node) if isinstance(n, ast.Call)}
+    yields = [n for n in own_nodes(isub.node) if isinstance(n, ast.Yield)]
+    rec = any(isinstance(n, ast.Call) and norm(n.func) == "iter_subclasses" for n in own_nodes(isub.node))
+    ok = any(c.endswith(".__subclasses__") for c in src_calls) and len(yields) >= 2 and rec
+    ctx.check(ok, "F2i", "iter_subclasses: direct subclasses + recursion", func=isub, construct="subclass-walk",
+              msg="iter_subclasses must yield every direct subclass (cls.__subclasses__()) and the subclasses of each, recursively: "
+                  "include_subclasses=True queries would otherwise miss registered objects")
+    cu = prog.func(f"{PART}._cleanup_point", "F2i")
+    ctx.touch(cu)
+    regs = {n.attr for n in own_nodes(cu.node) if isinstance(n, ast.Attribute) and n.attr in ("starting_objects", "ending_objects")}
+    tests = [n for n in own_nodes(cu.node) if isinstance(n, ast.If)]
+    guarded = any(isinstance(c, ast.Call) and norm(c.func).endswith("_remove_point") or (isinstance(c, ast.Call) and "remove" in norm(c.func))
+                  for t in tests for s in t.body for c in ast.walk(s))
+    ctx.check(regs == {"starting_objects", "ending_objects"} and guarded and len(tests) == 1, "F2i", "_cleanup_point consults both registries", func=cu,
+              construct="cleanup-registries",
+              msg=f"_cleanup_point must remove a point only when neither starting nor ending objects remain (registries consulted: {sorted(regs)}): a point "
+                  f"that still lists objects would vanish from the timeline, or an empty one would stay")
